@@ -100,6 +100,28 @@ pub fn seeds(ver: Ver, w: usize) -> Vec<(String, AP)> {
     for (i, n) in crate::genpk::special_names().into_iter().enumerate() {
         v.push((format!("PUBLISH special topic #{i}"), AP::Publish { ver, dup: false, qos: 0, retain: false, topic: n.as_bytes().to_vec(), pid: None, props: vec![], payload: vec![] }));
     }
+    if v5 {
+        // a property that may appear once, repeated 256 / 257 times (an occurrence counter of 8 bits wraps there)
+        let once: Vec<Prop> = vec![
+            Prop { id: 0x01, val: PVal::U8(1) },
+            Prop { id: 0x02, val: PVal::U32(5) },
+            Prop { id: 0x23, val: PVal::U16(1) },
+            Prop { id: 0x08, val: PVal::Str(b"r".to_vec()) },
+            Prop { id: 0x09, val: PVal::Bin(b"c".to_vec()) },
+            Prop { id: 0x03, val: PVal::Str(b"t".to_vec()) },
+        ];
+        for p in &once {
+            for n in [256usize, 257] {
+                v.push((format!("PUBLISH property 0x{:02x} x{n}", p.id), AP::Publish { ver, dup: false, qos: 0, retain: false, topic: b"a".to_vec(), pid: None, props: vec![p.clone(); n], payload: vec![] }));
+            }
+        }
+        v.push(("CONNECT session-expiry x256".into(), conn(true, 0, vec![p32(0x11, 1); 256], None)));
+        v.push(("CONNACK receive-maximum x256".into(), cack(false, 0, vec![p16(0x21, 1); 256])));
+        v.push(("SUBSCRIBE subscription-identifier x256".into(), AP::Subscribe { ver, pid: 1, props: vec![Prop { id: 0x0B, val: PVal::Vbi(1) }; 256], entries: vec![(b"f".to_vec(), 0)] }));
+        v.push(("DISCONNECT session-expiry x256".into(), AP::Disconnect { ver, code: Some(0), props: Some(vec![p32(0x11, 1); 256]) }));
+        v.push(("AUTH method x256".into(), AP::Auth { code: Some(0x18), props: Some(vec![Prop { id: 0x15, val: PVal::Str(b"m".to_vec()) }; 256]) }));
+        v.push(("PUBACK reason-string x256".into(), AP::Ack { ver, kind: AckKind::Puback, pid: 1, code: Some(0), props: Some(vec![Prop { id: 0x1F, val: PVal::Str(b"r".to_vec()) }; 256]) }));
+    }
     v
 }
 
